@@ -88,8 +88,26 @@ func registerIntrinsics(e *Engine) {
 	}
 	I["strings.EqualFold"] = func(e *Engine, st *State, c ssa.CallInstruction, a []Value) []*State {
 		s, t := a[0].(StrV), a[1].(StrV)
-		e.asciiOnly(st, c, s, "strings.EqualFold")
-		e.asciiOnly(st, c, t, "strings.EqualFold")
+		// against a concrete ASCII string without k/s, only ASCII bytes can fold to a match
+		// (the only non-ASCII runes folding to ASCII letters are U+212A -> k and U+017F -> s)
+		plain := func(x StrV) bool {
+			cs, ok := StrConcrete(x)
+			if !ok {
+				return false
+			}
+			for i := 0; i < len(cs); i++ {
+				if cs[i] >= 0x80 {
+					return false
+				}
+			}
+			return true
+		}
+		if !plain(t) || e.Ctx["latin1"] == nil {
+			e.asciiOnly(st, c, s, "strings.EqualFold")
+		}
+		if !plain(s) || e.Ctx["latin1"] == nil {
+			e.asciiOnly(st, c, t, "strings.EqualFold")
+		}
 		e.setResult(st, c, e.strEq(e.strLower(s), e.strLower(t)))
 		return nil
 	}
@@ -130,24 +148,32 @@ func registerIntrinsics(e *Engine) {
 			}
 			out = append(out, ch)
 		}
+		var pre []*Term
 		for i := 0; i <= n; i++ {
-			var pre []*Term
-			for k := 0; k < i; k++ {
-				pre = append(pre, sp[k])
-			}
+			// start == i: everything before i is blank (pre), byte i is not
 			if i == n {
 				emit(tt.And(pre...), 0, 0)
-				continue
+				break
 			}
-			pre = append(pre, tt.Not(sp[i]))
-			for j := n; j > i; j-- {
-				cs := append([]*Term(nil), pre...)
-				for k := j; k < n; k++ {
-					cs = append(cs, sp[k])
+			if sp[i] != tt.True {
+				startCond := append(append([]*Term(nil), pre...), tt.Not(sp[i]))
+				var post []*Term
+				for j := n; j > i; j-- {
+					// end == j: everything from j on is blank (post), byte j-1 is not
+					if sp[j-1] != tt.True {
+						cs := append(append(append([]*Term(nil), startCond...), post...), tt.Not(sp[j-1]))
+						emit(tt.And(cs...), i, j)
+					}
+					if sp[j-1] == tt.False {
+						break
+					}
+					post = append(post, sp[j-1])
 				}
-				cs = append(cs, tt.Not(sp[j-1]))
-				emit(tt.And(cs...), i, j)
 			}
+			if sp[i] == tt.False {
+				break
+			}
+			pre = append(pre, sp[i])
 		}
 		st.done = true
 		e.Stats.Forks += len(out)
@@ -192,6 +218,19 @@ func registerIntrinsics(e *Engine) {
 		s := a[1].(StrV)
 		e.builderAppend(st, a[0].(PtrV), s.B)
 		e.setResult(st, c, TupleV{E: []Value{e.TT.Int(int64(len(s.B))), IfaceV{}}})
+		return nil
+	}
+	I["(*strings.Builder).Write"] = func(e *Engine, st *State, c ssa.CallInstruction, a []Value) []*State {
+		sl := a[1].(SliceV)
+		if sl.LenT != nil {
+			e.fail("Builder.Write of a symbolic-length slice")
+		}
+		var bs []*Term
+		for _, v := range e.sliceElems(st, sl) {
+			bs = append(bs, v.(*Term))
+		}
+		e.builderAppend(st, a[0].(PtrV), bs)
+		e.setResult(st, c, TupleV{E: []Value{e.TT.Int(int64(len(bs))), IfaceV{}}})
 		return nil
 	}
 	I["(*strings.Builder).WriteRune"] = func(e *Engine, st *State, c ssa.CallInstruction, a []Value) []*State {
